@@ -24,6 +24,10 @@ def run(ctx):
     r1(ctx, "C13.R1")
     r2(ctx, "C13.R2")
     r3(ctx, "C13.R3")
+    from . import c12
+    from .common import reuse
+
+    reuse(ctx, "C13.R4", [c12.r4], "each frame is delivered once per subscriber: subscriber containers are sets (a repeated subscribe after re-init does not duplicate deliveries)", keep=lambda o: "AirTouchSocket" in o.construct)
 
 
 def r1(ctx, R):
@@ -102,6 +106,13 @@ def r2(ctx, R):
 
 
 def r3(ctx, R):
+    # the whole delivery chain is awaited: _read awaits _notify_message_received, which awaits _notify_subscribers, which awaits
+    # every callback - nothing is handed to a background task, so frame N's subscribers have finished before frame N+1 is read
+    nm = sock_fn(ctx, "_notify_message_received")
+    ns = [n for n, c in nm.calls("_notify_subscribers")]
+    spawned = [n for n, c in nm.calls_pred(lambda d: d.endswith("_schedule") or d.endswith("create_task") or d.endswith("ensure_future") or d.endswith("call_soon"))]
+    ok = bool(ns) and all(n.awaits for n in ns) and not spawned and nm.cfg.all_paths_pass(nm.cfg.entry.id, [nm.cfg.exit.id], [n.id for n in ns], NONEXC)
+    ctx.check(ok, R, "_notify_message_received:awaits-the-subscribers", nm.module, nm.node, "the notification of one frame is awaited to completion (not scheduled in the background): deliveries keep the order of the byte stream", "the notification is handed to a background task" if spawned else "not awaited on every path")
     f = sock_fn(ctx, "_read")
     m, g = f.module, f.cfg
     reads = [n for n, c in f.calls("self._read_one_message")]
